@@ -200,7 +200,8 @@ def finish(prop, tier, seed, contracts, results, extra, t0, write_baseline=False
                            "function (post/raises), implicit safety obligations, loop invariants, cut relations, "
                            "callee preconditions, plus finite/DFA lemmas; each discharged by the named back end",
         },
-        "assumptions": TRUSTED_BASE + sorted({a for o in extra for a in o.get("assumptions", [])}),
+        "assumptions": TRUSTED_BASE + sorted({a for o in extra for a in o.get("assumptions", [])}
+                                             | {a for r in results for a in r.get("assumed_contracts", [])}),
         "wall_s": round(time.time() - t0, 2),
         "violations": len(violations),
     }
